@@ -39,6 +39,8 @@ def load_variants() -> List[dict]:
         out.append({"prop": pr, "id": "global/rename-all-locals", "kind": "B", "rule": "", "transform": "rename_locals"})
         out.append({"prop": pr, "id": "global/log-line-and-docstring-in-every-function", "kind": "B", "rule": "", "transform": "add_logging"})
         out.append({"prop": pr, "id": "global/annotate-every-local-assignment", "kind": "B", "rule": "", "transform": "annotate_locals"})
+        out.append({"prop": pr, "id": "global/receiver-renamed-this", "kind": "B", "rule": "", "transform": "rename_self"})
+        out.append({"prop": pr, "id": "global/comparison-operands-flipped", "kind": "B", "rule": "", "transform": "flip_comparisons"})
     # regressions: reverse patches of the fix commits (real defects of the pinned tree)
     for r in getattr(mod, "REGRESSIONS", []):
         out.append(dict(r, kind="M", patch=str(VERIF / "selfval" / "regressions" / r["patch"])))
